@@ -15,7 +15,9 @@ from .values import lit_axioms
 Z3_TIMEOUT_MS = int(os.environ.get("PYVC_Z3_TIMEOUT_MS", "30000"))
 CVC5_TIMEOUT_S = int(os.environ.get("PYVC_CVC5_TIMEOUT_S", "60"))
 Z3_RETRY_TIMEOUT_MS = int(os.environ.get("PYVC_Z3_RETRY_TIMEOUT_MS", str(min(Z3_TIMEOUT_MS, 20000))))
-RETRY_SEEDS = (7, 23)
+RETRY_SEEDS = (7, 23, 101, 2024)
+RLIMIT_PER_MS = int(os.environ.get("PYVC_RLIMIT_PER_MS", "3300"))
+WALL_FACTOR = int(os.environ.get("PYVC_WALL_FACTOR", "5"))
 CVC5 = "/usr/bin/cvc5"
 
 
@@ -34,12 +36,23 @@ def _run_z3(smt2, timeout_ms, seed=None):
     try:
         ctx = z3.Context()
         s = z3.Solver(ctx=ctx)
-        s.set("timeout", timeout_ms)
+        # the budget is a RESOURCE limit (deterministic, ~3.3 M z3 resource units per second on this image, i.e. the nominal
+        # timeout on an idle machine); the wall-clock cap is a backstop at five times the nominal value, so that a verdict does
+        # not flip from unsat to unknown because the other cores are busy
+        s.set("timeout", timeout_ms * WALL_FACTOR)
+        s.set("rlimit", timeout_ms * RLIMIT_PER_MS)
         if seed is not None:
             s.set("random_seed", seed)
             s.set("smt.random_seed", seed)
         s.from_string(smt2)
         r = s.check()
+        if os.environ.get("PYVC_RLIMIT_LOG"):
+            try:
+                rl = dict((k, v) for k, v in s.statistics()).get("rlimit count")
+                with open(os.environ["PYVC_RLIMIT_LOG"], "a") as fh:
+                    fh.write(f"{r} {time.time() - t0:.3f} {rl}\n")
+            except Exception:  # noqa
+                pass
         if r == z3.unsat:
             return "unsat", time.time() - t0, ""
         if r == z3.sat:
